@@ -671,6 +671,63 @@ def if_calls_rule(run, quick):
                              "expand(%r) with templates %r gave %r; the rule (Model.FlatCall.if_calls_result) gives code points %s"
                              % (c["page"], c["lib"], res[idx[b]]["out"], " ".join(want.split())[:300]), c)
     run.extra["if_calls_with_calls_in_branches_checked_against_the_rule"] = len(coq_cases)
+    # ---- #ifeq and #switch with calls in their branches / case values
+    XS = ["", "a", " a ", "A", "1", "01", "1.0", "a b"]
+    KEYS = ["a", " a ", "b", "A", "1", "01", "+1", "1.0", "2", "a b", "#default", " #default ", "#DEFAULT", "c"]
+    for kind in ("ifeq", "switch"):
+        cases = []
+        for _ in range(250 if quick else 5000):
+            libn = [[nm, body(), False] for nm in ("I", "J") if rng.random() < 0.85]
+            x = rng.choice(XS)
+            if kind == "ifeq":
+                y = rng.choice([x, " " + x + " ", x.strip()]) if rng.random() < 0.4 else rng.choice(XS)
+                page = "{{#ifeq:" + "|".join([x, y] + [branch() for _ in range(rng.randint(0, 3))]) + "}}"
+            else:
+                page = "{{#switch:" + "|".join([x] + [rng.choice(KEYS) + "=" + branch() for _ in range(rng.randint(0, 4))]) + "}}"
+            cases.append({"lib": libn, "page": page, "opts": {}, "title": "Tt"})
+        res = lib.run_impl("expandlib", cases, shards=lib.NCPU)
+        head = [35, 105, 102, 101, 113, 58] if kind == "ifeq" else [35, 115, 119, 105, 116, 99, 104, 58]
+        coq_cases, idx = [], []
+        for i, (c, r) in enumerate(zip(cases, res)):
+            run.count({kind + "calls": c["lib"], "page": c["page"]}, c["page"].count("{{") >= 3, kind + "-with-calls")
+            if r.get("outcome") != "ok":
+                run.property_failure("%scalls:%s:%s" % (kind, r.get("outcome"), r.get("exc", "")), "expand() did not return normally: %r" % (r,), c)
+                continue
+            pa = r["page_ast"]
+            if len(pa) != 1 or isinstance(pa[0], int) or pa[0][0] != "T" or any(not isinstance(y, int) for y in pa[0][1][0]) \
+                    or pa[0][1][0][:len(head)] != head or (kind == "switch" and any(61 not in a for a in pa[0][1][1:])):
+                run.correspondence_break("a generated #%s call was not read as one call (with keyed cases)" % kind, c, page_ast=pa)
+                continue
+            more = [norm(a) for a in pa[0][1][1:]]
+            if kind == "ifeq":
+                second = clist(more, G.coq_enc, "enc")
+            else:
+                second = clist(more, lambda a: "(%s, %s)" % (G.coq_enc(a[:a.index(61)]), G.coq_enc(a[a.index(61) + 1:])), "enc * enc")
+            coq_cases.append("(%s, %s, %s, %s)" % (G.coq_lib([[t[0], t[1], t[2]] for t in r["lib_ast"]]), G.coq_enc(pa[0][1][0][len(head):]),
+                                                   second, cstr(r["out"])))
+            idx.append(i)
+        if kind == "ifeq":
+            ty, okfn, resfn = "list tpl * enc * list enc * str", "ifeq_calls_ok parser_functions l c m", "ifeq_calls_result l c m"
+        else:
+            ty, okfn = "list tpl * enc * list (enc * enc) * str", "plain c && forallb (case_calls_ok parser_functions l) m"
+            resfn = "add_newline (switch_calls_result l (strip_i c) m None)"
+        outside, errs = lib.coq_eval_failing("c04u0" + kind[0], imports, ty, coq_cases, "fun '(l, c, m, o) => %s" % okfn, chunk=300)
+        for e in errs:
+            run.correspondence_break("model evaluation failed (#%s with calls)" % kind, None, error=e)
+        for b in outside:
+            run.correspondence_break("a generated #%s call is outside the fragment of its rule in Model.FlatCall" % kind, cases[idx[b]])
+        bad, errs = lib.coq_eval_failing("c04u" + kind[0], imports, ty, coq_cases, "fun '(l, c, m, o) => str_eqb (codes (%s)) o" % resfn, chunk=300)
+        for e in errs:
+            run.correspondence_break("model evaluation failed (#%s with calls rule)" % kind, None, error=e)
+        for b in bad:
+            if b in outside:
+                continue
+            c = cases[idx[b]]
+            want = lib.coq_eval_term(imports, "(fun '(l, c, m, o) => codes (%s)) (%s)" % (resfn, coq_cases[b]))
+            run.property_failure("c04:%s-with-calls-differs-from-its-rule" % kind,
+                                 "expand(%r) with templates %r gave %r; the rule (Model.FlatCall.%s_calls_result) gives code points %s"
+                                 % (c["page"], c["lib"], res[idx[b]]["out"], kind, " ".join(want.split())[:300]), c)
+        run.extra["%s_calls_with_calls_inside_checked_against_the_rule" % kind] = len(coq_cases)
 
 
 def body_calls_rule(run, quick):
